@@ -28,6 +28,8 @@
 -/
 import TypedpyModel.Lemmas.Stub
 import TypedpyModel.Lemmas.StubSort
+import TypedpyModel.Lemmas.StubText
+import TypedpyModel.Lemmas.StubDefine
 namespace Typedpy.C16
 open Typedpy.Stub
 
@@ -143,7 +145,7 @@ theorem stub_kw_iff (dflt : Bool) (c : ClassInfo) :
     (stubInit dflt dflt c).kw = (runtimeAdmitsExtra dflt c || inheritedAddlOn dflt c) := by
   cases c with
   | mk d bases =>
-    simp only [stubInit, stubKw, runtimeAdmitsExtra, setattrAllows, inheritedAddlOn, runtimeSig, sigOf,
+    simp only [stubInit, stubKw, runtimeAdmitsExtra, setattrAllows, inheritedAddlOn, runtimeSig, Stub.sigOf,
       makeSignature, mro, addlLookup, ClassInfo.decl]
     cases hd : d.addl with
     | some b => cases b <;> simp
@@ -164,7 +166,7 @@ theorem stub_kw_disagree (dflt : Bool) (c : ClassInfo) (hx : inheritedAddlOn dfl
   cases c with
   | mk d bases =>
     simp only [inheritedAddlOn, ClassInfo.decl, Bool.and_eq_true, Bool.not_eq_true', Option.isNone_iff_eq_none] at hx
-    simp [runtimeAdmitsExtra, runtimeSig, sigOf, makeSignature, hx.1.1, hx.1.2]
+    simp [runtimeAdmitsExtra, runtimeSig, Stub.sigOf, makeSignature, hx.1.1, hx.1.2]
 
 /-! ### `**kw` vs the `**kwargs` of `__signature__` -/
 
@@ -174,7 +176,7 @@ theorem stub_sigkw_iff (dflt : Bool) (c : ClassInfo) :
     ((stubInit dflt dflt c).kw == (runtimeSig dflt c).kw) = !(inheritedAddlOn dflt c || inheritedAddlOff dflt c) := by
   cases c with
   | mk d bases =>
-    simp only [stubInit, stubKw, inheritedAddlOn, inheritedAddlOff, runtimeSig, sigOf,
+    simp only [stubInit, stubKw, inheritedAddlOn, inheritedAddlOff, runtimeSig, Stub.sigOf,
       makeSignature, mro, addlLookup, ClassInfo.decl]
     cases hd : d.addl with
     | some b => cases b <;> cases dflt <;> simp
@@ -188,7 +190,7 @@ theorem sig_kwargs_not_admitted_iff (dflt : Bool) (c : ClassInfo) :
     ((runtimeSig dflt c).kw && !runtimeAdmitsExtra dflt c) = inheritedAddlOff dflt c := by
   cases c with
   | mk d bases =>
-    simp only [runtimeAdmitsExtra, setattrAllows, inheritedAddlOff, runtimeSig, sigOf,
+    simp only [runtimeAdmitsExtra, setattrAllows, inheritedAddlOff, runtimeSig, Stub.sigOf,
       makeSignature, mro, addlLookup, ClassInfo.decl]
     cases hd : d.addl with
     | some b => cases b <;> cases dflt <;> simp
@@ -358,6 +360,262 @@ theorem stub_params_agree_example :
     (runtimeSig true exHierarchy).params = [⟨"a", false⟩, ⟨"m", false⟩, ⟨"o", true⟩, ⟨"c", true⟩, ⟨"z", true⟩] ∧
     inheritedAddlOn true exHierarchy = false ∧ inheritedAddlOff true exHierarchy = true ∧
     renderImports [("B", "pkg.b"), ("A", "pkg.a"), ("B", "pkg.b")] = ["from pkg.a import A", "from pkg.b import B"] := by
+  decide
+
+/-! ### the TEXT of the stub: every generated header is a `def` / `class` header of Python, for all hierarchies
+
+  `Sem/StubText.lean`: annotations are a typed AST (`Ann`: dotted names, subscriptions `Optional[..]`, `dict[.., ..]`,
+  `Union[..]`, `Literal[..]`, list displays, `...`, literals), `initToks` / `helperToks` / `classToks` / `attrToks` /
+  `methodToks` are what the generator writes (token level; `lexPy` is the character level, corresponded on the real
+  `.pyi` text each run), `parseDef` is the recogniser of Python's `def` header subset with the ordering rules of
+  signatures.  `textDomain`: field names are identifiers that are not keywords and the annotations are well-formed
+  (`Ann.wf`) — what `get_type_info` returns for every case the harness generates (checked per case). -/
+
+open Typedpy.StubText
+
+/-- the generated `__init__` of every class of every hierarchy parses, and the parser reads exactly the modelled
+    parameter list back: `self`, the field keywords (positional-or-keyword, default flag as modelled), `**kw` -/
+theorem stub_init_text_parses (dflt apd : Bool) (c : ClassInfo) (anns : String → Ann)
+    (h : textDomain anns (stubInit dflt apd c).params = true) :
+    parseDef (initToks anns (stubInit dflt apd c)) =
+      some ⟨"__init__", ⟨"self", .pk, false⟩ ::
+        ((stubInit dflt apd c).params.map pkInfo ++ kwInfos (stubInit dflt apd c).kw)⟩ :=
+  c16_init_parses anns _ (stub_mandatory_first dflt apd c) h
+
+/-- the three helper methods parse: fixed leading parameters, bare `*` where written, every field keyword with a
+    default, `**kw` last -/
+theorem stub_helper_text_parses (dflt apd : Bool) (c : ClassInfo) (anns : String → Ann) (hk : Helper)
+    (h : textDomain anns (stubInit dflt apd c).params = true) :
+    parseDef (helperToks anns hk (stubInit dflt apd c)) =
+      some ⟨helperName hk, helperLeadInfos hk ++
+        ((stubInit dflt apd c).params.map (helperInfo hk) ++ kwInfos (stubInit dflt apd c).kw)⟩ :=
+  c16_helper_parses anns hk _ h
+
+/-- the parameter order rule holds of the text for ANY parameter table with mandatory parameters first (this is the
+    statement the Define-based model below re-uses) -/
+theorem init_text_parses_of_mandatory_first (anns : String → Ann) (s : Stub.Sig)
+    (hm : mandatoryFirst s.params = true) (h : textDomain anns s.params = true) :
+    parseDef (initToks anns s) = some ⟨"__init__", ⟨"self", .pk, false⟩ :: (s.params.map pkInfo ++ kwInfos s.kw)⟩ :=
+  c16_init_parses anns s hm h
+
+/-- `class X(Base, Structure):` parses -/
+theorem stub_class_header_parses (c : String) (bases : List (List String)) (hc : identOk c = true)
+    (hb : ∀ b ∈ bases, dottedOk b = true) : parseClass (classToks c bases) = some (c, bases.length) :=
+  c16_class_parses c bases hc hb
+
+/-- every attribute line `    name: annotation [= None]` parses -/
+theorem stub_attr_text_parses (dflt apd : Bool) (c : ClassInfo) (anns : String → Ann)
+    (h : textDomain anns (stubInit dflt apd c).params = true) :
+    ∀ p ∈ (stubInit dflt apd c).params, parseAttr (attrToks (anns p.name) p) = some (p.name, p.hasDefault) := by
+  intro p hp
+  have := List.all_eq_true.mp h p hp
+  simp only [Bool.and_eq_true] at this
+  exact c16_attr_parses _ p this.1 this.2
+
+/-- methods, functions and user-written `__init__`: printing a legal `inspect.Signature` the way
+    `_get_list_of_params_with_type` does (the `/` and `*` markers from the two flags) and parsing the text gives the
+    same names, kinds and default flags back — for every legal signature -/
+theorem stub_method_text_roundtrip (f : String) (ps : List RParam) (ret : Option Ann) (hf : identOk f = true)
+    (hne : ps ≠ []) (hv : validSig ps = true) (hok : ∀ p ∈ ps, rparamOk p = true ∧ noVarDefault p = true)
+    (hret : optWf ret = true) :
+    parseDef (methodToks f ps ret) = some ⟨f, ps.map RParam.info⟩ :=
+  c16_method_roundtrip f ps ret hf hne hv hok hret
+
+/-- parameter names of the generated `__init__` are pairwise distinct (so the stub compiles) exactly when no field
+    is named `self` or — when the class gets `**kw` — `kw`: the exact region of the known finding
+    "uncompilable-stub:parameter-name-clash" for `__init__` -/
+theorem stub_init_dupfree_iff (dflt apd : Bool) (c : ClassInfo) :
+    dupFree (["self"] ++ ((stubInit dflt apd c).params.map (·.name) ++
+        (if (stubInit dflt apd c).kw then ["kw"] else []))) =
+      ((stubInit dflt apd c).params.map (·.name)).all
+        (fun n => !(fixedNames ["self"] (stubInit dflt apd c).kw).contains n) :=
+  c16_dupFree_method ["self"] _ _ (by decide) (by decide) (c16_nodup_stubArgs dflt c)
+
+/-- the same for `from_other_class` / `from_trusted_data`: distinct iff no field is named `cls`, `source_object`,
+    `ignore_props` or (with `**kw`) `kw` -/
+theorem stub_helper_dupfree_iff (dflt apd : Bool) (c : ClassInfo) :
+    dupFree (["cls", "source_object", "ignore_props"] ++ ((stubInit dflt apd c).params.map (·.name) ++
+        (if (stubInit dflt apd c).kw then ["kw"] else []))) =
+      ((stubInit dflt apd c).params.map (·.name)).all
+        (fun n => !(fixedNames ["cls", "source_object", "ignore_props"] (stubInit dflt apd c).kw).contains n) :=
+  c16_dupFree_method _ _ _ (by decide) (by decide) (c16_nodup_stubArgs dflt c)
+
+/-- `class S(Structure): source_object: String` — the kernel-checked instance of the finding: the header parses,
+    two parameters are called `source_object` -/
+def ceNameClash : ClassInfo := .mk { name := "S", fields := [{ name := "source_object" }] } []
+
+theorem name_clash_counterexample :
+    (parseDef (helperToks (fun _ => .name ["str"]) .fromOtherClass (stubInit true true ceNameClash))).isSome = true ∧
+    dupFree (["cls", "source_object", "ignore_props"] ++ ((stubInit true true ceNameClash).params.map (·.name) ++
+      (if (stubInit true true ceNameClash).kw then ["kw"] else []))) = false := by
+  decide
+
+/-- non-vacuity, at the character level: the `__init__` of `exHierarchy` as text, lexed and parsed -/
+def exAnns : String → Ann
+  | "o" => .sub ["Optional"] [.name ["int"]]
+  | "c" => .sub ["dict"] [.name ["str"], .sub ["Union"] [.name ["int"], .name ["datetime", "date"]]]
+  | "z" => .sub ["Callable"] [.lst [.name ["int"]], .name ["None"]]
+  | "m" => .sub ["Literal"] [.lit, .lit]
+  | _ => .name ["str"]
+
+set_option maxRecDepth 100000 in
+theorem stub_text_example :
+    toksText (initToks exAnns (stubInit true true exHierarchy)) =
+      "def __init__ ( self , m : Literal [ 0 , 0 ] , a : str , o : Optional [ int ] = None , " ++
+      "c : Optional [ dict [ str , Union [ int , datetime . date ] ] ] = None , " ++
+      "z : Optional [ Callable [ [ int ] , None ] ] = None ) : ..." ∧
+    (lexPy (toksText (initToks exAnns (stubInit true true exHierarchy)))).bind parseDef =
+      some ⟨"__init__", [⟨"self", .pk, false⟩, ⟨"m", .pk, false⟩, ⟨"a", .pk, false⟩, ⟨"o", .pk, true⟩,
+        ⟨"c", .pk, true⟩, ⟨"z", .pk, true⟩]⟩ ∧
+    textDomain exAnns (stubInit true true exHierarchy).params = true := by
+  decide
+
+set_option maxRecDepth 100000 in
+/-- the recogniser is not trivial: the texts of the repaired defects and of typical breakage are rejected -/
+theorem parse_rejects_examples :
+    -- a parameter without default after one with default (finding "required-optional-default" era ordering)
+    (lexPy "def __init__(self, e: Optional[int] = None, s: str, **kw): ...").bind parseDef = none ∧
+    -- `= None` inside a subscription (fixed finding "unparsable-stub:nested-optional-default")
+    (lexPy "def __init__(self, m: dict[str, Optional[int] = None]): ...").bind parseDef = none ∧
+    -- `**kw` not last, bare `*` without a named parameter, `/` first, two `*`
+    (lexPy "def f(self, **kw, a: int = None): ...").bind parseDef = none ∧
+    (lexPy "def f(cls, source_object: Any, *, **kw): ...").bind parseDef = none ∧
+    (lexPy "def f(/, a): ...").bind parseDef = none ∧
+    (lexPy "def f(*a, *, b): ...").bind parseDef = none ∧
+    -- unbalanced bracket, missing comma, unterminated string (seeded C16-10: `Literal["1/2"", "3/4""]`)
+    (lexPy "def f(a: dict[str, int): ...").bind parseDef = none ∧
+    (lexPy "def f(a: int b: str): ...").bind parseDef = none ∧
+    (lexPy "def f(size: Literal[\"1/2\"\", \"3/4\"\"]): ...").bind parseDef = none ∧
+    -- and a positional-only marker is read back
+    (lexPy "def f(a, /, b=None, *args, c, **kw) -> dict[str, int]: ...").bind parseDef =
+      some ⟨"f", [⟨"a", .po, false⟩, ⟨"b", .pk, true⟩, ⟨"args", .va, false⟩, ⟨"c", .ko, false⟩, ⟨"kw", .vk, false⟩]⟩ := by
+  decide
+
+/-! ### a stub generated under another `additional_properties_default` than the runtime's (`apd ≠ dflt`) -/
+
+/-- when some class of the MRO declares `_additional_properties`, the `**` clause does not depend on the default the
+    stub generator was given: everything proved for `apd = dflt` carries over -/
+theorem stub_kw_apd_declared (dflt apd : Bool) (c : ClassInfo) (h : (addlLookup (mro c)).isSome = true) :
+    (stubInit dflt apd c).kw = (stubInit dflt dflt c).kw := by
+  simp only [stubInit, stubKw]
+  cases hl : addlLookup (mro c) with
+  | none => simp [hl] at h
+  | some b => rfl
+
+/-- when no class declares it, the stub says `apd` and the constructor follows the runtime default: they agree iff
+    the generator was configured like the runtime -/
+theorem stub_kw_apd_undeclared (dflt apd : Bool) (c : ClassInfo) (h : addlLookup (mro c) = none) :
+    (stubInit dflt apd c).kw = apd ∧ runtimeAdmitsExtra dflt c = dflt := by
+  cases c with
+  | mk d bases =>
+    simp only [mro] at h
+    have hd : d.addl = none := by
+      cases hd : d.addl with
+      | none => rfl
+      | some b => simp [addlLookup, hd] at h
+    constructor
+    · simp [stubInit, stubKw, mro, h]
+    · simp [runtimeAdmitsExtra, setattrAllows, runtimeSig, Stub.sigOf, makeSignature, mro, h, hd]
+
+/-! ### both sides as models of code: the stub generator over the class objects of Sem/Define.lean
+
+  `Sem/StubDefine.lean` reads `_field_by_name`, `_constants`, `_required` and the inherited `_additional_properties`
+  off the class object that `Sem/Define.build` creates — Define's `make_signature` / `get_base_info` / C3 linearisation
+  (the model C12/C14 prove things about and the `define` suite corresponds) IS the runtime side.  The statements
+  below are one-step facts: they hold for EVERY world `w` and EVERY class source `src`, hence for every hierarchy
+  shape (several bases, shared ancestors, diamonds), with no reachability hypothesis. -/
+
+open Typedpy.StubD
+
+/-- keyword names of the stub `__init__` = names of Define's runtime signature, exactly when every non-constant
+    name of `_field_by_name` is one `make_signature` draws from (`namesCovered`, decidable, evaluated per case) -/
+theorem stubD_names_agree_iff (apd : Bool) (w : World) (src : ClassSrc) :
+    (∀ n, n ∈ (stubInitD apd w src).params.map (·.name) ↔ n ∈ (sigParamsD (Typedpy.sigOf w src)).map (·.name)) ↔
+      namesCovered w src = true :=
+  c16_names_agree_iff w src
+
+/-- a stub parameter lacks a default exactly when Define's signature lists the name as required — for every world,
+    on the names both sides know -/
+theorem stubD_required_agree (apd : Bool) (w : World) (src : ClassSrc) (n : String)
+    (hcov : covered w src n = true) (hk : n ∈ (allFieldsOf w src).map (·.1)) :
+    (⟨n, false⟩ : Param) ∈ (stubInitD apd w src).params ↔ n ∈ (Typedpy.sigOf w src).req :=
+  c16_stubD_required w src n hcov hk
+
+/-- the `**` clause over Define's worlds: same exact characterisation as `stub_kw_iff` -/
+theorem stubD_kw_iff (dflt : Bool) (w : World) (src : ClassSrc) :
+    (stubInitD dflt w src).kw = (admitsD dflt w src || inheritedOnD dflt w src) :=
+  c16_stubD_kw_iff dflt w src
+
+theorem stubD_sigkw_iff (dflt : Bool) (w : World) (src : ClassSrc) :
+    ((stubInitD dflt w src).kw == sigKwD dflt src) = !(inheritedOnD dflt w src || inheritedOffD dflt w src) :=
+  c16_stubD_sigkw_iff dflt w src
+
+/-- with the shipped default the `**kwargs` compared above is literally Define's `sig.kwargs` -/
+theorem stubD_sigkw_is_define (w : World) (src : ClassSrc) : sigKwD true src = (build w src).sig.kwargs := rfl
+
+theorem stubD_mandatory_first (apd : Bool) (w : World) (src : ClassSrc) :
+    mandatoryFirst (stubInitD apd w src).params = true := by
+  show mandatoryFirst (orderedArgs _) = true
+  unfold orderedArgs
+  apply mandatoryFirst_append
+  · intro p hp; simpa using (List.mem_filter.mp hp).2
+  · intro p hp; simpa using (List.mem_filter.mp hp).2
+
+/-- the generated `__init__` parses for every class of every world (diamonds included) -/
+theorem stubD_init_text_parses (apd : Bool) (w : World) (src : ClassSrc) (anns : String → Ann)
+    (h : textDomain anns (stubInitD apd w src).params = true) :
+    parseDef (initToks anns (stubInitD apd w src)) =
+      some ⟨"__init__", ⟨"self", .pk, false⟩ ::
+        ((stubInitD apd w src).params.map pkInfo ++ kwInfos (stubInitD apd w src).kw)⟩ :=
+  c16_init_parses anns _ (stubD_mandatory_first apd w src) h
+
+/-! #### kernel-checked diamonds -/
+
+def dFld (n : String) (d : Bool := false) : String × SrcEntry :=
+  (n, .obj (.field .anything (if d then some (.lit (.int 0)) else none)))
+def dCst (n : String) : String × SrcEntry := (n, .obj (.const (.int 3)))
+
+def defAll : World → List ClassSrc → World
+  | w, [] => w
+  | w, s :: rest => defAll (w.add (build w s)) rest
+
+/-- `class A: x, a; _optional = ['x']` / `class B(A): b` / `class C(A): x (required again), c = default;
+    _additional_properties = False` / `class D(B, C): d` — a benign diamond: MRO `D B C A` (C3); `get_base_info` takes
+    `x` from the first base that has it (`B`: optional); stub and signature agree on names and defaults; the `**`
+    clause is in the `inheritedAddlOff` region -/
+def dmA : ClassSrc := { name := "A", bases := ["Structure"], entries := [dFld "x", dFld "a"], optional := ["x"] }
+def dmB : ClassSrc := { name := "B", bases := ["A"], entries := [dFld "b"] }
+def dmC : ClassSrc := { name := "C", bases := ["A"], entries := [dFld "x", dFld "c" true], addl := some false }
+def dmD : ClassSrc := { name := "D", bases := ["B", "C"], entries := [dFld "d"] }
+def dmW : World := defAll World.init [dmA, dmB, dmC]
+
+theorem stubD_diamond_example :
+    (build dmW dmD).mro = ["D", "B", "C", "A", "Structure"] ∧
+    (stubInitD true dmW dmD).params = [⟨"a", false⟩, ⟨"b", false⟩, ⟨"d", false⟩, ⟨"x", true⟩, ⟨"c", true⟩] ∧
+    (Typedpy.sigOf dmW dmD).req = ["a", "b", "d"] ∧ (Typedpy.sigOf dmW dmD).opt = ["x", "c"] ∧
+    namesCovered dmW dmD = true ∧
+    (stubInitD true dmW dmD).kw = false ∧ sigKwD true dmD = true ∧ inheritedOffD true dmW dmD = true := by
+  decide
+
+/-- `class Y: n = Constant(3), y` / `class P(Y): p` / `class Z(Y): n: String, z` / `class B(P, Z): b` /
+    `class D(B): d`: `B` takes `n` for a constant (the `getattr` inside `StructMeta.__new__` answers from `P`'s
+    `_field_by_name`), so `B.__signature__` has no `n`; `D` resolves `n` to `Z`'s Field, so the stub of `D` has the
+    keyword `n` while `D.__signature__`, built from `B`'s, has not: finding "names-mismatch:constant-shadowed-in-diamond"
+    (reproduced on the real code by the `stub` suite, `diamond_cases`) -/
+def dqY : ClassSrc := { name := "Y", bases := ["Structure"], entries := [dCst "n", dFld "y"] }
+def dqP : ClassSrc := { name := "P", bases := ["Y"], entries := [dFld "p"] }
+def dqZ : ClassSrc := { name := "Z", bases := ["Y"], entries := [dFld "n", dFld "z"] }
+def dqB : ClassSrc := { name := "B", bases := ["P", "Z"], entries := [dFld "b"] }
+def dqD : ClassSrc := { name := "D", bases := ["B"], entries := [dFld "d"] }
+def dqW : World := defAll World.init [dqY, dqP, dqZ, dqB]
+
+theorem diamond_names_counterexample :
+    namesCovered dqW dqD = false ∧
+    "n" ∈ (stubInitD true dqW dqD).params.map (·.name) ∧ "n" ∉ (sigParamsD (Typedpy.sigOf dqW dqD)).map (·.name) ∧
+    ¬ (∀ n, n ∈ (stubInitD true dqW dqD).params.map (·.name) ↔ n ∈ (sigParamsD (Typedpy.sigOf dqW dqD)).map (·.name)) := by
+  refine ⟨by decide, by decide, by decide, fun h => ?_⟩
+  have := (stubD_names_agree_iff true dqW dqD).mp h
+  revert this
   decide
 
 end Typedpy.C16
